@@ -68,8 +68,8 @@ func drawNetwork(t *sim.Tape, cfg *Config) *consensus.Network {
 	}
 	early := func(hi int) uint64 { return uint64(t.Range(1, hi)) }
 	n.HardforkDevAddr.Height = early(6)
-	n.HardforkTax.Height = early(10)
-	n.HardforkStorageProof.Height = n.HardforkTax.Height + uint64(t.Range(0, 12))
+	n.HardforkTax.Height = early(pick(t, 10, 40))
+	n.HardforkStorageProof.Height = n.HardforkTax.Height + uint64(t.Range(0, pick(t, 12, 30)))
 	n.HardforkOak.Height = early(20)
 	n.HardforkOak.FixHeight = n.HardforkOak.Height + uint64(t.Range(0, 10))
 	n.HardforkOak.GenesisTimestamp = epoch
